@@ -139,6 +139,15 @@ P = {
          "1/3 concurrent launches with distinct handler names): Launch must return nil and the pid of the process running that handler, "
          "after its Done(), with the daemon alive, not a child of the caller, launcher gone",
          "schedule control only through the documented pause point; a Launch not returning within 8 s of start counts as not returning", "5/C20"),
+ "C01": ("spec/logger/JsonLine.tla (+JsonLineMC), spec/logger/JsonString.tla (+JsonStringMC), spec/common/Utf8.tla, spec/logger/JsonCases.tla",
+         "TLA+ spec with a strict JSON token grammar / ordered decoding / Expected tree (statement) and the handler's separator and group "
+         "bookkeeping plus appendJsonString (implementation-shaped); TLC checks Decode(Emit) = Expected over all chains x forests and "
+         "Unescape(Escape(s)) = Sanitize(s) over byte-class strings, rejects the pinned separator logic and raw-invalid-byte mutants, exports the "
+         "scenarios; real lines (structure replay inside derivation trees, 36 value kinds, every 1-byte string, 2-byte strings, Unicode scalars "
+         "in 5 positions) are lexed and judged by TLC",
+         "bounded-exhaustive design check + exhaustive byte-level conformance of the real handler judged by the statement layer only "
+         "(any valid escaping accepted; empty keyed groups may be shown or omitted)",
+         "float/time round trips checked by strconv/time on the Go side; line lexer in the harness passes structural bytes through", "5/C01"),
 }
 
 NOT_BUILT_REASON = "check not built yet in this session (see DESIGN.md section 5 for the planned TLA+ spec and binding)"
